@@ -13,7 +13,10 @@
 (*     TTL, else the configured default;                                      *)
 (*   - an omitted class is IN;                                                *)
 (*   - $INCLUDE (when allowed) splices in the file's records under the stated *)
-(*     origin and does not change the includer's origin;                      *)
+(*     origin and does not change the includer's origin; a relative file name *)
+(*     is looked up from the directory of the INCLUDING file, an absolute one *)
+(*     from the root of the include file system (NewZoneParser: "file is used *)
+(*     ... to resolve relative $INCLUDE directives");                         *)
 (*   - $GENERATE yields one record per step of its range, every $ and         *)
 (*     ${offset,width,base} replaced by the iterator value.                   *)
 (* Where the statement is silent the machine is left unconstrained (AMBIG):   *)
@@ -266,19 +269,41 @@ GenTooMany(g) == (g.hi - g.lo) \div g.step >= MaxGen        \* (stated without c
 -----------------------------------------------------------------------------
 (* The denotation.  A parser state is a record; Step gives the SET of states   *)
 (* one abstract line may lead to (more than one only where marked AMBIG).      *)
-(*   cfg  = [defTTL (-1: none), origin, incAllowed, files: <<[name, lines]>>]  *)
+(*   cfg  = [defTTL (-1: none), origin, incAllowed, file (the path given for    *)
+(*           the zone file itself), files: <<[name (full path), lines]>>]       *)
 (*   s    = [origin, lastOwner, dirTTL ($TTL value), lastTTL (most recently    *)
-(*           stated), out, err, undef, opens, depth, pol]                      *)
+(*           stated), out, err, undef, opens, depth, dir (the directory of the  *)
+(*           file being read, as path components), pol]                        *)
 (* Each record remembers the top-level line it came from (ln), where its TTL   *)
 (* came from (src): "stated" | "$TTL" | "last" | "default", and whether it was *)
 (* written as an RR line or expanded from a $GENERATE (via).                   *)
+
+\* ---- paths.  A path is text with "/" between components; a leading "/" makes it absolute.
+cSLASH == 47
+JoinPath(cs) == Concat([i \in 1..Len(cs) |-> IF i = 1 THEN cs[i] ELSE <<cSLASH>> \o cs[i]])
+PlainComponent(c) == c # <<>> /\ c # <<cDOT>> /\ c # <<cDOT, cDOT>>
+\* st: "ok" | "err" (no name) | "amb" (".", "..", "//": path cleaning is not part of the statement)  \* AMBIG
+ResolvePath(dir, name) ==
+  IF name = <<>> THEN [st |-> "err", cs |-> <<>>]
+  ELSE LET parts == Split(name, cSLASH)
+           abs == parts[1] = <<>>
+           rel == IF abs THEN Tail(parts) ELSE parts
+           cs == IF abs THEN rel ELSE dir \o rel
+       IN IF rel # <<>> /\ \A i \in 1..Len(rel) : PlainComponent(rel[i]) THEN [st |-> "ok", cs |-> cs] ELSE [st |-> "amb", cs |-> <<>>]
+\* the directory of the zone file itself ("" and "db" live in the root)
+DirOfFile(name) ==
+  IF name = <<>> THEN <<>>
+  ELSE LET parts == Split(name, cSLASH)
+           cs == SelectSeq(parts, LAMBDA c : c # <<>>)
+       IN IF cs = <<>> THEN <<>> ELSE SubSeq(cs, 1, Len(cs) - 1)
 
 \* pol: the reading of the AMBIG carry-out questions, fixed for a run:
 \*   io / it : owner / TTL state survives the end of an included file
 \*   go / gt : owner / TTL state survives a $GENERATE
 Policies == [io : BOOLEAN, it : BOOLEAN, go : BOOLEAN, gt : BOOLEAN]
 StartP(cfg, pol) == [origin |-> cfg.origin, lastOwner |-> NoName, dirTTL |-> NoTTL, lastTTL |-> NoTTL,
-                     out |-> <<>>, err |-> FALSE, errln |-> 0, undef |-> FALSE, opens |-> <<>>, depth |-> 0, pol |-> pol]
+                     out |-> <<>>, err |-> FALSE, errln |-> 0, undef |-> FALSE, opens |-> <<>>, depth |-> 0,
+                     dir |-> DirOfFile(cfg.file), pol |-> pol]
 Starts(cfg) == { StartP(cfg, pol) : pol \in Policies }
 \* the policies that can make a difference for a given file (the others give the same outcomes; MC_Zone checks that)
 HasKind(lines, k) == \E i \in 1..Len(lines) : lines[i].k = k
@@ -320,7 +345,7 @@ RECURSIVE Step(_, _, _, _), RunLines(_, _, _, _, _)
 \* either survive or do not, as the run's policy says  \* AMBIG
 CarryOut(s, sub, keepOwner, keepTTL) ==
   LET tt == IF keepTTL THEN sub ELSE s IN
-  [sub EXCEPT !.origin = s.origin, !.depth = s.depth, !.lastOwner = IF keepOwner THEN sub.lastOwner ELSE s.lastOwner,
+  [sub EXCEPT !.origin = s.origin, !.depth = s.depth, !.dir = s.dir, !.lastOwner = IF keepOwner THEN sub.lastOwner ELSE s.lastOwner,
               !.dirTTL = tt.dirTTL, !.lastTTL = tt.lastTTL]
 
 Step(s, cfg, line, ln) ==
@@ -341,16 +366,19 @@ Step(s, cfg, line, ln) ==
          ELSE IF s.depth >= MaxDepth THEN {ErrAt(s, ln)}
          ELSE LET c == IF line.origin.k = "omit" THEN [st |-> "ok", n |-> s.origin.n] ELSE Complete(line.origin, s.origin)
                   no == IF line.origin.k = "omit" THEN s.origin ELSE Name(c.n)
-                  fi == FileIndex(cfg, line.file)
-                  opened == [s EXCEPT !.opens = Append(@, line.file)]
-              IN IF c.st = "amb" THEN {Undef(s)}
-                 ELSE IF c.st = "err" THEN {ErrAt(s, ln)}
+                  rp == ResolvePath(s.dir, line.file)
+                  path == JoinPath(rp.cs)
+                  fi == FileIndex(cfg, path)
+                  opened == [s EXCEPT !.opens = Append(@, path)]
+              IN IF c.st = "amb" \/ rp.st = "amb" THEN {Undef(s)}
+                 ELSE IF c.st = "err" \/ rp.st = "err" THEN {ErrAt(s, ln)}
                  ELSE (IF s.depth >= SureDepth THEN {ErrAt(s, ln)} ELSE {})         \* AMBIG: the property fixes no depth
                       \cup (IF fi = 0 THEN {ErrAt(opened, ln)}                       \* no such file
                             ELSE      { IF sub.err \/ sub.undef
                                          THEN CarryOut(s, sub, FALSE, FALSE)
                                          ELSE CarryOut(s, sub, s.pol.io, s.pol.it) :
-                                         sub \in RunLines({[opened EXCEPT !.origin = no, !.lastOwner = NoName, !.depth = @ + 1]},
+                                         sub \in RunLines({[opened EXCEPT !.origin = no, !.lastOwner = NoName, !.depth = @ + 1,
+                                                                   !.dir = SubSeq(rp.cs, 1, Len(rp.cs) - 1)]},
                                                           cfg, cfg.files[fi].lines, 1, ln) })
     [] line.k = "generate" ->
          IF ~GenRangeOK(line) THEN {ErrAt(s, ln)}
@@ -484,17 +512,17 @@ Meaning(c, lines) == LET D == Denotations(c, lines) IN
 -----------------------------------------------------------------------------
 (* The same thing as a TLA+ state machine: one action per abstract line.       *)
 
-VARIABLES cfg, pol, origin, lastOwner, dirTTL, lastTTL, out, err, errln, undef, opens, depth, nline
-zvars == <<cfg, pol, origin, lastOwner, dirTTL, lastTTL, out, err, errln, undef, opens, depth, nline>>
+VARIABLES cfg, pol, origin, lastOwner, dirTTL, lastTTL, out, err, errln, undef, opens, depth, dir, nline
+zvars == <<cfg, pol, origin, lastOwner, dirTTL, lastTTL, out, err, errln, undef, opens, depth, dir, nline>>
 
 Cur == [origin |-> origin, lastOwner |-> lastOwner, dirTTL |-> dirTTL, lastTTL |-> lastTTL,
-        out |-> out, err |-> err, errln |-> errln, undef |-> undef, opens |-> opens, depth |-> depth, pol |-> pol]
+        out |-> out, err |-> err, errln |-> errln, undef |-> undef, opens |-> opens, depth |-> depth, dir |-> dir, pol |-> pol]
 Becomes(s) == /\ origin' = s.origin /\ lastOwner' = s.lastOwner /\ dirTTL' = s.dirTTL /\ lastTTL' = s.lastTTL
-              /\ out' = s.out /\ err' = s.err /\ errln' = s.errln /\ undef' = s.undef /\ opens' = s.opens /\ depth' = s.depth
+              /\ out' = s.out /\ err' = s.err /\ errln' = s.errln /\ undef' = s.undef /\ opens' = s.opens /\ depth' = s.depth /\ dir' = s.dir
 
 ZInit(c) == /\ cfg = c /\ nline = 0 /\ pol \in Policies
             /\ origin = c.origin /\ lastOwner = NoName /\ dirTTL = NoTTL /\ lastTTL = NoTTL
-            /\ out = <<>> /\ err = FALSE /\ errln = 0 /\ undef = FALSE /\ opens = <<>> /\ depth = 0
+            /\ out = <<>> /\ err = FALSE /\ errln = 0 /\ undef = FALSE /\ opens = <<>> /\ depth = 0 /\ dir = DirOfFile(c.file)
 
 Do(line) == /\ nline' = nline + 1 /\ UNCHANGED <<cfg, pol>>
             /\ \E s \in Step(Cur, cfg, line, nline + 1) : Becomes(s)
